@@ -276,9 +276,10 @@ def normalize_depth_variables(
             # however it is a very common violation and we can make a good guess.
             # This is a _depth_ variable.
             # If there are more values >0 than <0, positive is probably down.
-            total_values = len(new_variable.values)
-            positive_values = len(new_variable.values[new_variable.values > 0])
-            data_positive_down = positive_values > (total_values / 2)
+            # Values of exactly zero, such as the surface, say nothing either way.
+            positive_values = numpy.count_nonzero(new_variable.values > 0)
+            negative_values = numpy.count_nonzero(new_variable.values < 0)
+            data_positive_down = positive_values > negative_values
 
             warnings.warn(
                 f"Depth variable {name!r} had no 'positive' attribute, "
